@@ -264,6 +264,12 @@ func (s *Server) handleReAcquire(msg protocol.Message) error {
 		} else {
 			return err
 		}
+		return nil
+	}
+	// The re-acquire succeeded: tell the client, which is waiting for it
+	respMsg := NewMsgAcquired()
+	if err := s.SendMessage(respMsg); err != nil {
+		return err
 	}
 	return nil
 }
